@@ -21,6 +21,9 @@ pub enum Expect {
     Reject,
     /// must compile, verify, and print exactly these lines
     Prints(Vec<String>),
+    /// where exactly the limit falls is not known by construction: either rejected with a compile
+    /// error, or accepted, verified and printing exactly these lines
+    RejectOrPrints(Vec<String>),
 }
 
 pub struct Limit {
@@ -262,6 +265,35 @@ pub fn limits() -> Vec<Limit> {
             source: s,
             expect: if n <= 65536 { Expect::Prints(vec![]) } else { Expect::Reject },
         });
+    }
+    // the constant that crosses the limit is not a number: a string, a new global's name, a lambda,
+    // a named function, a class with a method and a generated constructor. How many constants each
+    // tail adds is the compiler's business, so the count of numbers sweeps across the boundary and
+    // every instance must either be rejected or run correctly (the first constant of the chunk is a
+    // function too, so an index that wraps around names a function of the wrong kind)
+    let tails: [(&str, &str); 5] = [
+        ("string", "print(\"second\");"),
+        ("global_name", "var zsecond = \"second\"; print(zsecond);"),
+        ("lambda", "print((|| \"second\")());"),
+        ("function", "fn zsecond() { return \"second\"; } print(zsecond());"),
+        ("class", "#[constructor(new)] class Zc { fn m(self) { return \"second\"; } } print(Zc.new().m());"),
+    ];
+    for (kind, tail) in tails.iter() {
+        for n in 65524usize..=65536 {
+            let mut s = String::with_capacity(n * 7 + 200);
+            s.push_str("var first = || \"first\";\n");
+            for i in 0..n {
+                s.push_str(&i.to_string());
+                s.push(';');
+            }
+            s.push('\n');
+            s.push_str(tail);
+            v.push(Limit {
+                name: format!("constants_then_{}_{}", kind, n),
+                source: s,
+                expect: Expect::RejectOrPrints(vec!["second".to_string()]),
+            });
+        }
     }
     // interpolation depth 8 / 9
     for d in [7usize, 8, 9] {
@@ -563,7 +595,7 @@ impl Property for C04 {
     }
 
     fn rule(&self) -> String {
-        "cases: (limits, exhaustive) one parameterised program per encoding limit at limit-1, limit, limit+1 (+2): forward jump distance for if/else/&&/||/while/try/break at 65534..65537 bytes with byte-exact filler, backward loop distance, call/method arguments, parameters (fn and lambda), vec/tuple/map elements and interpolation parts at 254..257, locals at 254..257, captured variables at 255..258, constants per chunk at 65535..65537, interpolation depth 7..9; operand sweep: functions whose code ends in an operand byte of every value 0..255 as local slot, argument count, element count and captured-variable index; (scripts) every script of the repository's corpus that compiles; (programs*) generated programs of the mixed/class/scope profiles, with and without recorded-defect shapes; (far_code) generated programs of the exception, scope and mixed profiles placed behind 64-190 KiB of no-op statements in the same chunk, so that every code offset of the program exceeds 16 bits: verified, and run next to the unpadded program, whose printed values and outcome it must reproduce. Oracle: the bytecode verifier (abstract interpretation over every function: instruction boundaries, operand indices, one operand-stack height and one static handler stack per reachable pc, no pop below the frame base, final Return, line table length), the verifier's heights cross-checked against the interpreter's (chunk, pc, height) trace of the same run, no panic while running, and for the limit family the output or rejection known by construction. Non-trivial: a verified function with >=1 branch and height above its arity, or any limit instance; distinct by program text.".into()
+        "cases: (limits, exhaustive) one parameterised program per encoding limit at limit-1, limit, limit+1 (+2): forward jump distance for if/else/&&/||/while/try/break at 65534..65537 bytes with byte-exact filler, backward loop distance, call/method arguments, parameters (fn and lambda), vec/tuple/map elements and interpolation parts at 254..257, locals at 254..257, captured variables at 255..258, constants per chunk at 65535..65537 (numbers) and with the crossing constant a string, a global's name, a lambda, a named function or a class (65524..65536 numbers before it; each instance is rejected or runs correctly), interpolation depth 7..9; operand sweep: functions whose code ends in an operand byte of every value 0..255 as local slot, argument count, element count and captured-variable index; (scripts) every script of the repository's corpus that compiles; (programs*) generated programs of the mixed/class/scope profiles, with and without recorded-defect shapes; (far_code) generated programs of the exception, scope and mixed profiles placed behind 64-190 KiB of no-op statements in the same chunk, so that every code offset of the program exceeds 16 bits: verified, and run next to the unpadded program, whose printed values and outcome it must reproduce. Oracle: the bytecode verifier (abstract interpretation over every function: instruction boundaries, operand indices, one operand-stack height and one static handler stack per reachable pc, no pop below the frame base, final Return, line table length), the verifier's heights cross-checked against the interpreter's (chunk, pc, height) trace of the same run, no panic while running, and for the limit family the output or rejection known by construction. Non-trivial: a verified function with >=1 branch and height above its arity, or any limit instance; distinct by program text.".into()
     }
 
     fn assumptions(&self) -> Vec<String> {
@@ -590,7 +622,7 @@ impl Property for C04 {
                     }
                     s = format!("{}… [{} bytes]", &s[..cut], s.len());
                 }
-                format!("{} {:?}\n{}", name, exp.map(|e| match e { Expect::Reject => "reject".to_string(), Expect::Prints(l) => format!("prints {:?}", l) }), s)
+                format!("{} {:?}\n{}", name, exp.map(|e| match e { Expect::Reject => "reject".to_string(), Expect::Prints(l) => format!("prints {:?}", l), Expect::RejectOrPrints(l) => format!("rejected, or prints {:?}", l) }), s)
             }
             None => "<none>".into(),
         }
@@ -624,6 +656,19 @@ impl Property for C04 {
                     }
                     ctx.label("limit_rejected");
                     return Verdict::Pass { nontrivial: true, hash: fnv64(name.as_bytes()) };
+                }
+                Expect::RejectOrPrints(lines) => {
+                    if rejected {
+                        ctx.label("limit_rejected");
+                        return Verdict::Pass { nontrivial: true, hash: fnv64(name.as_bytes()) };
+                    }
+                    if &c.out != lines || !matches!(c.end, End::Ok(_)) {
+                        return Verdict::Fail {
+                            sig: format!("limit-wrong-output:{}", name.rsplit_once('_').map(|x| x.0).unwrap_or(&name)),
+                            detail: format!("{}: the program was accepted, so it must print {:?}; it printed {:?} and ended {:?}", name, lines, c.out, c.end),
+                        };
+                    }
+                    ctx.label("limit_accepted");
                 }
                 Expect::Prints(lines) => {
                     if rejected {
